@@ -33,9 +33,25 @@ def c11_values_masked_inplace(w):
 
 
 def c05_absolute_tolerance(w):
-    # fnnls_cholesky: tolerance = 2.2204e-16 * n is absolute; an optimum whose largest entry is within 1e3 of it is truncated
-    return (w.get("monitor") == "kkt.solver.tiny_solution" and w.get("solution_scale_below_absolute_tolerance") is True
-            and float(w.get("reference_max", 1.0)) <= 1e3 * float(w.get("abs_tolerance", 0.0)))
+    # fnnls_cholesky: tolerance = 2.2204e-16 * n is absolute, for the coefficient test and for the gradient (stopping) test.
+    # (a) an optimum whose largest entry is within 1e3 of it is truncated
+    if (w.get("monitor") == "kkt.solver.tiny_solution" and w.get("solution_scale_below_absolute_tolerance") is True
+            and float(w.get("reference_max", 1.0)) <= 1e3 * float(w.get("abs_tolerance", 0.0))):
+        return True
+    # (b) a system in units where the data vector is tiny (|D| ~ 1e-12): the solver stops as soon as every gradient component of
+    # the parameters at the bound is below 2.2204e-16 * n, although relative to |D| they are far from zero. Recognised by: the
+    # returned vector is feasible and stationary on its positive entries, and EVERY offending gradient component is below the
+    # solver's own absolute threshold (so the solver's stopping test was met) - nothing else is excused.
+    if w.get("monitor") in ("kkt.solver", "kkt.solver.warm", "kkt.inversion", "kkt.inversion.prod_defaults"):
+        g, sv, tau = w.get("g"), w.get("s"), w.get("tau")
+        if (isinstance(g, list) and isinstance(sv, list) and len(g) == len(sv) and tau is not None
+                and int(w.get("negative_entries", 1)) == 0 and int(w.get("gradient_nonzero_on_positive", 1)) == 0
+                and int(w.get("gradient_negative_on_zero", 0)) > 0):
+            n = len(g)
+            eps = 1e-12 * (1.0 + max(abs(float(x)) for x in sv))
+            off = [-float(gi) for gi, si in zip(g, sv) if not (float(si) > eps) and float(gi) < -float(tau)]
+            return bool(off) and max(off) <= 2.2204e-16 * n
+    return False
 
 
 CLASSIFIERS = {
